@@ -102,7 +102,7 @@ type Rec struct {
 
 var current []*Item
 
-var Variants = []string{"Plain", "Exp", "Batch", "FbOn", "FbOff"}
+var Variants = []string{"Plain", "Exp", "Batch", "FbOn", "FbOff", "Mixed"}
 
 func build() *graphql.Schema {
 	s := schemabuilder.NewSchema()
@@ -152,6 +152,30 @@ func build() *graphql.Schema {
 	q.FieldFunc("itemsFbOff", list, schemabuilder.Paginated,
 		schemabuilder.BatchFilterFieldWithFallback("name", bfname, fnameE, off),
 		schemabuilder.BatchSortFieldWithFallback("rank", brank, rankE, off), schemabuilder.BatchSortFieldWithFallback("name", bname, nameE, off))
+	// Mixed: three filter fields of three kinds over one connection; each item shows its name through exactly one of
+	// them (by its key) and the empty text through the other two, so that "some filter field contains the token" is the
+	// model's "the name contains the token" - as long as every field's verdict is credited to the right item
+	part := func(it *Item, k int) string {
+		h := 0
+		for _, c := range it.Key {
+			h = h*31 + int(c)
+		}
+		if h%3 == k {
+			return surface(it.Name, it.Key)
+		}
+		return ""
+	}
+	q.FieldFunc("itemsMixed", list, schemabuilder.Paginated,
+		schemabuilder.FilterField("name", func(it *Item) string { return part(it, 0) }),
+		schemabuilder.FilterField("tag", func(it *Item) string { return part(it, 1) }, schemabuilder.Expensive),
+		schemabuilder.BatchFilterField("note", func(m map[batch.Index]*Item) (map[batch.Index]string, error) {
+			out := map[batch.Index]string{}
+			for i, it := range m {
+				out[i] = part(it, 2)
+			}
+			return out, nil
+		}),
+		schemabuilder.SortField("rank", rank), schemabuilder.SortField("name", name))
 	s.Mutation()
 	return s.MustBuild()
 }
